@@ -138,19 +138,21 @@ func synthetic() []*source {
 		}
 	}
 	b.WriteString("func f(x int) int { println(x); return x }\n")
+	b.WriteString("func pair() (int, string) { return 7, \"seven\" }\nfunc triple() (int, int, int) { return 1, 2, 3 }\n")
+	b.WriteString("var pa, pb = pair()\nvar t1, t2, t3 = triple()\n")
+	b.WriteString("type hidden struct{ x, y int; name string }\nvar hv = hidden{1, 2, \"h\"}\n")
 	for i := 0; i < 10; i++ {
-		fmt.Fprintf(&b, "type T%d struct{ A%d int; B string }\nfunc (t T%d) M() int { return t.A%d + %d }\n", i, i, i, i, i)
+		fmt.Fprintf(&b, "type T%d struct{ A%d int; B string }\nfunc m%d(t T%d) int { return t.A%d + %d }\n", i, i, i, i, i, i)
 	}
-	b.WriteString("type I interface{ M() int }\n")
-	b.WriteString("func main() {\n\tvar is []I\n")
+	b.WriteString("func main() {\n\ts := 0\n")
 	for i := 0; i < 10; i++ {
-		fmt.Fprintf(&b, "\tis = append(is, T%d{A%d: host.F%02d(%d), B: \"s%d\"})\n", i, i, i, i, i)
+		fmt.Fprintf(&b, "\ts += m%d(T%d{A%d: host.F%02d(%d), B: \"s%d\"})\n", i, i, i, i, i, i)
 	}
-	b.WriteString("\ts := 0\n\tfor _, x := range is { s += x.M() }\n\tprintln(s, v0, host.C03, h2.C05, *host.V01)\n")
+	b.WriteString("\tprintln(s, v0, host.C03, h2.C05, host.V01, pa, pb, t1, t2, t3, hv.x+hv.y, hv.name)\n")
 	b.WriteString("\tm := map[string]int{\"a\": 1, \"b\": 2, \"c\": 3, \"d\": 4, \"e\": 5, \"f\": 6, \"g\": 7, \"h\": 8, \"i\": 9, \"j\": 10}\n\tprintln(len(m))\n")
 	b.WriteString("\ti := 0\nL1:\n\tif i < 3 { i++; goto L1 }\n\tif i < 5 { i += 2; goto L3 }\n\ti = 100\nL3:\n\tprintln(i)\n")
-	b.WriteString("\tfs := []func() int{}\n\tfor k := 0; k < 3; k++ { a, c, d := k, k*2, k*3; fs = append(fs, func() int { return a + c + d + i }) }\n\tprintln(fs[0](), fs[2]())\n")
-	b.WriteString("\tswitch x := any(s).(type) {\n\tcase int: println(\"int\", x)\n\tcase string: println(\"string\")\n\tcase T1: println(\"T1\")\n\tcase I: println(\"I\")\n\t}\n")
+	b.WriteString("\tk := 2\n\ta, c, d := k, k*2, k*3\n\tf0 := func() int { return a + c + d + i }\n\tf1 := func() int { return f0() + a }\n\tprintln(f0(), f1())\n")
+	b.WriteString("\tswitch x := any(s).(type) {\n\tcase int: println(\"int\", x)\n\tcase string: println(\"string\")\n\tcase T1: println(\"T1\")\n\tcase error: println(\"error\")\n\t}\n")
 	b.WriteString("\tc1 := make(chan int, 1); c2 := make(chan string, 1)\n\tselect {\n\tcase c1 <- 1:\n\tcase c2 <- \"x\":\n\tdefault:\n\t}\n")
 	b.WriteString("}\n")
 	out = append(out, &source{name: "synthetic/program-big", files: map[string]string{"main.go": b.String()}, run: true, opts: opts})
@@ -229,6 +231,10 @@ func sources(tier string) []*source {
 		}
 		fp, n, err := controlled(s, 0, noDev, 0, 1)
 		if err != nil {
+			if strings.HasPrefix(s.name, "synthetic/") || strings.HasPrefix(s.name, "c14/") {
+				fmt.Fprintf(os.Stderr, "C30: own source %s does not build: %v\n", s.name, err)
+				os.Exit(2)
+			}
 			continue
 		}
 		fp2, n2, _ := controlled(s, 0, noDev, 0, 1)
